@@ -154,6 +154,26 @@ def salted_good(name, key, table):
     return "%s_%d" % (name, len(table))
 
 
+def idkey_bad(names, phases):
+    cache = {}
+    for name, phase in zip(names, phases):
+        for stmt in phase:
+            if stmt.id not in cache:
+                cache[stmt.id] = work(stmt)
+            use(cache[stmt.id])
+
+
+def idkey_good(names, phases):
+    for name, phase in zip(names, phases):
+        cache = {}
+        for stmt in phase:
+            cache[stmt.id] = work(stmt)
+    table = {}
+    for name, phase in zip(names, phases):
+        for stmt in phase:
+            table[name, stmt.id] = work(stmt)
+
+
 def mutate_bad(statement):
     loops = statement.loops
     loops.reverse()
@@ -388,6 +408,52 @@ def _salted(f):
     return out
 
 
+def _idkey(f):
+    """Statement ids are unique within a phase only: a table that lives across the
+    loop over the phases must not be keyed by the id alone."""
+    if f.parent is not None:
+        return []
+    fn = f.node
+    phase_loops = [lp for lp in ast.walk(fn) if isinstance(lp, (ast.For, ast.comprehension))
+                   and "phases" in ast.unparse(lp.iter)]
+    if not phase_loops:
+        return []
+    inside = set()
+    for lp in phase_loops:
+        if isinstance(lp, ast.For):
+            for b in lp.body:
+                inside |= {id(x) for x in ast.walk(b)}
+    # tables created outside every loop over the phases
+    tables = {}
+    for x in ast.walk(fn):
+        if isinstance(x, ast.Assign) and id(x) not in inside and len(x.targets) == 1 \
+                and isinstance(x.targets[0], ast.Name) and (
+                isinstance(x.value, (ast.Dict, ast.Set)) and not getattr(x.value, "keys", None)
+                and not getattr(x.value, "elts", None)
+                or isinstance(x.value, ast.Call) and dotted(x.value.func) in ("dict", "set", "defaultdict",
+                                                                              "collections.defaultdict")):
+            tables[x.targets[0].id] = x
+    out = []
+    seen = set()
+    for x in ast.walk(fn):
+        key = None
+        name = None
+        if isinstance(x, ast.Subscript) and isinstance(x.value, ast.Name) and x.value.id in tables:
+            name, key = x.value.id, x.slice
+        elif isinstance(x, ast.Call) and isinstance(x.func, ast.Attribute) \
+                and isinstance(x.func.value, ast.Name) and x.func.value.id in tables \
+                and x.func.attr in ("add", "get", "setdefault", "pop") and x.args:
+            name, key = x.func.value.id, x.args[0]
+        elif isinstance(x, ast.Compare) and len(x.ops) == 1 and isinstance(x.ops[0], (ast.In, ast.NotIn)) \
+                and isinstance(x.comparators[0], ast.Name) and x.comparators[0].id in tables:
+            name, key = x.comparators[0].id, x.left
+        if key is not None and isinstance(key, ast.Attribute) and key.attr == "id" and name not in seen:
+            seen.add(name)
+            out.append((x, f"'{name}' is kept across the loop over the phases and keyed by "
+                           f"{norm(key)} alone (ids repeat from phase to phase)"))
+    return out
+
+
 _SET_GETTERS = ("get_written_variables", "get_read_variables")
 
 
@@ -545,6 +611,7 @@ LINTS = [
     ("narrow", _narrow, True),
     ("oneshot", _oneshot, True),
     ("salted", _salted, True),
+    ("idkey", _idkey, True),
     ("mutate", _mutate, False),     # only for modules that are handed a description
 ]
 
@@ -567,7 +634,7 @@ def lints(run, P, prop, extra_files=()):
              "a loop that is only computed in another loop; parallel sequences ordered "
              "alike; no loop variable used in a later loop; no identity comparison of values; data "
              "split by separator; union, not 'or', of variable sets; no word handed to "
-             "strip(); no hash() / id() in text; no one-shot iterator kept as a field; no attribute that the class of a narrowed value lacks; no one mutable object as the value of many keys; no "
+             "strip(); no table across phases keyed by statement id alone; no hash() / id() in text; no one-shot iterator kept as a field; no attribute that the class of a narrowed value lacks; no one mutable object as the value of many keys; no "
              "argument passed under another parameter's name; no in-place change of a "
              "description handed in", minimum=3)
     files = sorted(set(anchor_files(prop)) | set(extra_files))
